@@ -768,7 +768,7 @@ def run_c14(chk: Check) -> None:
     if len(chk.violations) < 5:
         sweeps.address_reuse_sweep(chk, 44 if quick else 200)
     if len(chk.violations) < 5:
-        sweeps.hashseed_sweep(chk, 1 if quick else 4)
+        sweeps.hashseed_sweep(chk, 1 if quick else 4, 2 if quick else 4)
     if len(chk.violations) < 5:
         sweeps.cold_start_sweep(chk)
     if not quick:
